@@ -62,12 +62,16 @@ DnaLaws(i, sp, f, x) ==
       badmu == { j \in 1..Len(x.multis) :
                    LET r == MultiRef(sp, d, x.multis[j][1], ms[CHOOSE m \in 1..Len(ms) : ms[m].id = x.multis[j][1]].k)
                    IN x.multis[j][2] # r \/ x.multis[j][3] # r }
-      badnm == { j \in 1..Len(x.names) : x.names[j][2] # NameRef(sp, d, x.names[j][1]) }
+      badnm0 == { j \in 1..Len(x.names) : x.names[j][2] # NameRef(sp, d, x.names[j][1]) }
+      \* d[name] raising for a decision point that exists but is inactive (documented answer: None)
+      badnmI == { j \in badnm0 : NameRef(sp, d, x.names[j][1]) = <<Inactive>> /\ x.names[j][2] = <<Bad>> }
+      badnm == badnm0 \ badnmI
   IN FlattenSeq([j \in 1..Len(x.anns) |-> SeqIf(j \in badann, Fail(i, "aligned", x.anns[j][1], <<t, x.anns[j][2]>>))])
   \o FlattenSeq([j \in 1..Len(x.rts) |-> SeqIf(j \in badrt, Fail(i, "roundtrip", x.rts[j][1], <<t, x.rts[j][2], x.rts[j][3]>>))])
   \o SeqIf(Len(x.lookups) # Len(lk) \/ badlk # {}, Fail(i, "lookup_by_decision_point_or_id", "getitem", <<t, badlk>>))
   \o SeqIf(badmu # {}, Fail(i, "lookup_multi_choice", "getitem", <<t, badmu>>))
   \o SeqIf(badnm # {}, Fail(i, "lookup_by_name", "getitem", <<t, badnm>>))
+  \o SeqIf(badnmI # {}, Fail(i, "lookup_by_name_inactive_raises", "getitem", <<t, badnmI>>))
   \o SeqIf(x.todict # ToDictRef(sp, d), Fail(i, "to_dict_decisions", "to_dict", <<t, x.todict>>))
   \o SeqIf(x.todict_id_keys # [k \in 1..Len(Dps(sp)) |-> Dps(sp)[k].id],
            Fail(i, "to_dict_keys", "to_dict", <<t, x.todict_id_keys>>))
